@@ -313,9 +313,40 @@ def default_nconstraints_case(name):
   return fn
 
 
+def scml_lda_unlabeled_case():
+  """NOT solver-decided (k-means and LDA are compiled numerics): with the default 'lda' basis the points labeled -1 influence neither the
+  basis nor the metric -- moving only the unlabeled rows leaves the learned matrix unchanged (sampled data sets)"""
+  def fn(ctx):
+    from metric_learn import SCML_Supervised
+    for trial in range(3):
+      rs = np.random.RandomState(11 + trial)
+      centers = rs.randn(3, 4) * 4
+      X = np.vstack([centers[c] + rs.randn(15, 4) for c in range(3)] + [rs.randn(8, 4) * 3])
+      y = np.array([0] * 15 + [1] * 15 + [2] * 15 + [-1] * 8)
+      perm = rs.permutation(len(y))
+      X, y = X[perm], y[perm]
+      Ms = []
+      for shift in (0.0, 50.0):
+        X2 = X.copy()
+        if shift:
+          X2[y < 0] = shift + 10 * rs.randn(int((y < 0).sum()), 4)
+        with warnings.catch_warnings():
+          warnings.simplefilter('ignore')
+          est = SCML_Supervised(k_genuine=2, k_impostor=3, basis='lda', n_basis=20, random_state=1, max_iter=300, output_iter=100)
+          est.fit(X2, y)
+        Ms.append(est.get_mahalanobis_matrix())
+      scale = max(1.0, float(np.abs(Ms[0]).max()))
+      ctx.require('unlabeled_points_do_not_influence_the_lda_basis_metric', ctx.cond(bool(np.abs(Ms[0] - Ms[1]).max() <= 1e-8 * scale)),
+                  detail='max |dM| = %.3g' % float(np.abs(Ms[0] - Ms[1]).max()))
+  return fn
+
+
 def cases(tier, seed):
   out = []
   Q, T = ('quick', 'thorough'), ('thorough',)
+  out.append(case('scml_lda_basis_unlabeled_sampled', scml_lda_unlabeled_case(), FUNCS,
+                  'SCML_Supervised(basis=lda) on 3 classes x 15 points + 8 points labeled -1 in R^4, 3 data sets: the unlabeled rows are moved far away (concrete, sampled; not solver-decided)',
+                  concrete_only=True, validate=1, cost=5))
   for name in ('ITML_Supervised', 'MMC_Supervised', 'SDML_Supervised'):
     out.append(case('pairs_%s_n4' % name, pairs_case(name, 4, 1, 1, 5), FUNCS,
                     '4 arbitrary points in R^1, labels arbitrary in {-1,0,1}, n_constraints=1, RNG schedules <= 5 non-trivial draws',
